@@ -4,7 +4,7 @@
    allocation failure and aborts are runtime behaviour a Gallina model cannot exhibit (sampled by
    catch_unwind + timeout in the correspondence run). *)
 Require Import Enr.Bytes Enr.Consts Enr.Rlp Enr.SortedMap Enr.Keccak Enr.Record Enr.Update Enr.Text Enr.Spec.
-Require Import EnrProofs.Thm_Misc EnrProofs.Thm_More EnrProofs.Thm_Valid.
+Require Import EnrProofs.Thm_Misc EnrProofs.Thm_More EnrProofs.Thm_Valid EnrProofs.FuelLemmas.
 Open Scope N_scope.
 
 Theorem decode_no_panic : forall (c : crypto) kt b, decode c kt b <> Panic.
@@ -66,3 +66,13 @@ Proof.
   intros c kt h r Hv Hall. destruct (Thm_More.valid_accessors_total c kt _ (Thm_Valid.history_valid c kt h r Hv Hall)) as (H1 & H2 & _). auto.
 Qed.
 Print Assumptions history_accessors_total.
+
+(* termination of the loops as modelled: every iteration of the pair loop / record loop consumes at least one byte, so the
+   model's fuel (the payload length) never runs out -- the out-of-fuel marker is unreachable, for ALL inputs *)
+Theorem decode_never_out_of_fuel : forall (c : crypto) kt b, decode c kt b <> Err EFuel.
+Proof. exact FuelLemmas.decode_never_out_of_fuel. Qed.
+Print Assumptions decode_never_out_of_fuel.
+
+Theorem decode_vec_never_out_of_fuel : forall (c : crypto) kt b, decode_vec c kt b <> Err EFuel.
+Proof. exact FuelLemmas.decode_vec_never_out_of_fuel. Qed.
+Print Assumptions decode_vec_never_out_of_fuel.
